@@ -128,6 +128,47 @@ func UniqueCallSite(f *ssa.Function) ssa.CallInstruction {
 	return sites[0]
 }
 
+// ctxRoot, when set, is the operation a rule is currently judging: a helper
+// called from several operations is then resolved at its single call site
+// inside this one (context-sensitive by one level of root).
+var ctxRoot *ssa.Function
+
+// WithRoot runs fn with root as the context for OriginX / SameX / FactsX.
+func WithRoot(root *ssa.Function, fn func()) {
+	old := ctxRoot
+	ctxRoot = root
+	defer func() { ctxRoot = old }()
+	fn()
+}
+
+// SetRoot sets (or with nil clears) the context root; see WithRoot.
+func SetRoot(root *ssa.Function) { ctxRoot = root }
+
+// ContextCallSite is UniqueCallSite, or (under WithRoot) the single static
+// call of the helper f inside the root operation and its literals.
+func ContextCallSite(f *ssa.Function) ssa.CallInstruction {
+	if cs := UniqueCallSite(f); cs != nil {
+		return cs
+	}
+	if ctxRoot == nil || f == nil || f.Parent() != nil || f.Blocks == nil || usedAsValue[f] {
+		return nil
+	}
+	if obj := f.Object(); obj == nil || obj.Exported() {
+		return nil
+	}
+	var found ssa.CallInstruction
+	for _, cs := range StaticCallSites(f) {
+		if Outer(cs.Parent()) != ctxRoot {
+			continue
+		}
+		if _, isCall := cs.(*ssa.Call); !isCall || found != nil {
+			return nil
+		}
+		found = cs
+	}
+	return found
+}
+
 // OriginX is Origin extended through parameters of single-call-site helpers.
 func OriginX(v ssa.Value) ssa.Value {
 	for i := 0; i < 6; i++ {
@@ -137,7 +178,7 @@ func OriginX(v ssa.Value) ssa.Value {
 			return v
 		}
 		f := prm.Parent()
-		cs := UniqueCallSite(f)
+		cs := ContextCallSite(f)
 		if cs == nil {
 			return v
 		}
@@ -268,20 +309,25 @@ func factsX(in ssa.Instruction) []Cond {
 	f := in.Parent()
 	for depth := 0; f != nil && depth < 5; depth++ {
 		if par := f.Parent(); par != nil {
-			var mk ssa.Instruction
+			var mk *ssa.MakeClosure
 			Instrs(par, func(x ssa.Instruction) {
 				if mc, ok := x.(*ssa.MakeClosure); ok && mc.Fn == f {
-					mk = x
+					mk = mc
 				}
 			})
 			if mk == nil {
 				break
 			}
 			out = append(out, FactsAt(mk)...)
+			// a literal handed to a helper that only calls it: what holds
+			// where the helper calls it holds when it runs
+			if cu := CallbackOf(mk); cu != nil && len(cu.Calls) == 1 {
+				out = append(out, FactsAt(cu.Calls[0])...)
+			}
 			f = par
 			continue
 		}
-		cs := UniqueCallSite(f)
+		cs := ContextCallSite(f)
 		if cs == nil {
 			break
 		}
